@@ -343,6 +343,18 @@ class Registry(object):
             work.extend(ci.bases)
         return None
 
+    def field_home_down(self, cls, field):
+        """a field declared only on a (unique) subclass of cls: (subclass, root, type, ghost) or None"""
+        hits = []
+        for c in self.classes:
+            if c != cls and self.is_subclass(c, cls):
+                ci = self.classes[c]
+                if field in ci.fields:
+                    hits.append((c, c, ci.fields[field], False))
+                elif field in ci.ghost:
+                    hits.append((c, c, ci.ghost[field], True))
+        return hits[0] if len(hits) == 1 else None
+
     def is_subclass(self, c, base):
         if c == base:
             return True
